@@ -78,13 +78,13 @@ structure Cfg where
   whitelist : Bool
 
 structure Cmd where
-  «from» : Bytes
+  sender : Bytes
   device : Bytes
   chanId : Bytes
   chanType : Nat
   normalize : Bool
   requestScoped : Bool
-  scoped : Nat            -- len(MessageScopedUIDs)
+  scopedN : Nat            -- len(MessageScopedUIDs)
 
 inductive ErrClass | none | store | invalidPerson | invalidAgent
   deriving DecidableEq, Repr
@@ -215,24 +215,24 @@ def finish (r : RE) (deliver : Bytes) : Outcome :=
 
 /-- `checkSendPermission` followed by `Send`'s handling of its result -/
 def perSend (cfg : Cfg) (st : Store) (cmd : Cmd) : Outcome :=
-  if cmd.requestScoped || (cmd.scoped > 0 && cmd.chanId.isEmpty) then finish ok cmd.chanId
+  if cmd.requestScoped || (cmd.scopedN > 0 && cmd.chanId.isEmpty) then finish ok cmd.chanId
   else
     let src := fromCmd cmd.chanId
     let id1 := src.1
     let wasCmd := src.2
     let norm : Option Bytes :=
-      if cmd.chanType = tPerson ∧ cmd.normalize then normalizePerson cmd.from id1 else some id1
+      if cmd.chanType = tPerson ∧ cmd.normalize then normalizePerson cmd.sender id1 else some id1
     match norm with
     | none => ⟨0, .invalidPerson, none⟩
     | some id2 =>
       let reapplied := if wasCmd then toCmd id2 else id2
       if !cfg.hasPerm then finish ok reapplied
-      else if cfg.isSystem cmd.from then finish (terminal st id2 cmd.chanType) reapplied
+      else if cfg.isSystem cmd.sender then finish (terminal st id2 cmd.chanType) reapplied
       else
-        let s := senderCheck st cmd.from
+        let s := senderCheck st cmd.sender
         if !s.isOk then finish s reapplied
         else if cfg.isSystemDevice cmd then finish (terminal st id2 cmd.chanType) reapplied
-        else finish (typeSwitch cfg st id2 cmd.chanType cmd.from) reapplied
+        else finish (typeSwitch cfg st id2 cmd.chanType cmd.sender) reapplied
 
 /-! ### batched path (permission_batch.go) -/
 
@@ -244,13 +244,34 @@ def batchSender (st : Store) (uid : Bytes) : Option RE :=
   | .found _ _ true _ => some (rSendBan, .none)
   | _ => none
 
+/-- the denied / subscriber / hasAllowlist / allowlistEntry tail of
+    `evaluateGroupPermissionReadPlan` (all four facts were read in the same round;
+    evaluation looks at them in this order) -/
+def evalGroupTail (st : Store) (src : Bytes) (ty : Nat) (uid : Bytes) : RE :=
+  match st.contains .deny src ty uid with
+  | .err => (rSystemError, .store)
+  | .val true => (rInBlacklist, .none)
+  | .val false =>
+    match st.contains .members src ty uid with
+    | .err => (rSystemError, .store)
+    | .val false => (rSubscriberNotExist, .none)
+    | .val true =>
+      match st.hasAny .allow src ty with
+      | .err => (rSystemError, .store)
+      | .val false => ok
+      | .val true =>
+        match st.contains .allow src ty uid with
+        | .err => (rSystemError, .store)
+        | .val false => (rNotInWhitelist, .none)
+        | .val true => ok
+
 /-- `evaluateGroupPermissionReadPlan` over the facts the plan reads -/
 def evalGroup (cfg : Cfg) (st : Store) (cmd : Cmd) : RE :=
   let src := (fromCmd cmd.chanId).1
   let ty := cmd.chanType
-  let trustedUID := cfg.isSystem cmd.from
+  let trustedUID := cfg.isSystem cmd.sender
   let trusted := trustedUID || cfg.isSystemDevice cmd
-  match (if trustedUID then none else batchSender st cmd.from) with
+  match (if trustedUID then none else batchSender st cmd.sender) with
   | some r => r
   | none =>
     match st.chan src ty with
@@ -260,74 +281,65 @@ def evalGroup (cfg : Cfg) (st : Store) (cmd : Cmd) : RE :=
       if trusted then (if disband then (rDisband, .none) else ok)
       else if ban then (rBan, .none)
       else if disband then (rDisband, .none)
-      else match st.contains .deny src ty cmd.from with
-        | .err => (rSystemError, .store)
-        | .val true => (rInBlacklist, .none)
-        | .val false =>
-          match st.contains .members src ty cmd.from with
-          | .err => (rSystemError, .store)
-          | .val false => (rSubscriberNotExist, .none)
-          | .val true =>
-            match st.hasAny .allow src ty with
-            | .err => (rSystemError, .store)
-            | .val false => ok
-            | .val true =>
-              match st.contains .allow src ty cmd.from with
-              | .err => (rSystemError, .store)
-              | .val false => (rNotInWhitelist, .none)
-              | .val true => ok
+      else evalGroupTail st src ty cmd.sender
 
 /-- group outcome: the batch keeps the *original* channel id for delivery -/
 def batchGroup (cfg : Cfg) (st : Store) (cmd : Cmd) : Outcome :=
   finish (evalGroup cfg st cmd) cmd.chanId
 
+/-- the tail of `evaluatePersonPermissionReadPlan` once sender and terminal
+    facts passed: receiverTrusted, denied, allowlistEntry, receiverChannel -/
+def evalPersonTail (cfg : Cfg) (st : Store) (receiver uid : Bytes) : RE :=
+  if cfg.isSystem receiver then ok
+  else match st.contains .deny receiver tPerson uid with
+    | .err => (rSystemError, .store)
+    | .val true => (rInBlacklist, .none)
+    | .val false =>
+      if !cfg.whitelist then ok                      -- allowlistEntry was not planned
+      else match st.contains .allow receiver tPerson uid with
+        | .err => (rSystemError, .store)
+        | .val true => ok
+        | .val false =>
+          match st.chan receiver tPerson with
+          | .err => (rSystemError, .store)
+          | .found _ _ _ true => ok
+          | _ => (rNotInWhitelist, .none)
+
+/-- terminal.Err / terminal.Found && Disband; `none` = continue -/
+def batchTerminal (st : Store) (pid : Bytes) : Option RE :=
+  match st.chan pid tPerson with
+  | .err => some (rSystemError, .store)
+  | .found _ true _ _ => some (rDisband, .none)
+  | _ => none
+
 /-- `checkPersonSendPermissionsBatch` plan + `evaluatePersonPermissionReadPlan` -/
 def batchPerson (cfg : Cfg) (st : Store) (cmd : Cmd) : Outcome :=
   let src := fromCmd cmd.chanId
   let id1 := src.1
-  let norm : Option Bytes := if cmd.normalize then normalizePerson cmd.from id1 else some id1
+  let norm : Option Bytes := if cmd.normalize then normalizePerson cmd.sender id1 else some id1
   match norm with
   | none => ⟨rSuccess, .invalidPerson, none⟩            -- planErr, no reads
   | some id2 =>
     let id3 := if src.2 then toCmd id2 else id2
     let pid := (fromCmd id3).1                              -- permissionChannelID
-    let term : Option RE :=                                 -- terminal.Err / Found && Disband
-      match st.chan pid tPerson with
-      | .err => some (rSystemError, .store)
-      | .found _ true _ _ => some (rDisband, .none)
-      | _ => none
-    if cfg.isSystem cmd.from then
+    let term := batchTerminal st pid
+    if cfg.isSystem cmd.sender then
       finish (term.getD ok) id3
     else if cfg.isSystemDevice cmd then
-      finish ((batchSender st cmd.from).getD (term.getD ok)) id3
+      finish ((batchSender st cmd.sender).getD (term.getD ok)) id3
     else match decodePerson pid with
       | none => ⟨rSuccess, .invalidPerson, none⟩           -- planErr is evaluated first
       | some (l, r) =>
-        let receiver := receiverOf cmd.from l r
-        match batchSender st cmd.from with
+        match batchSender st cmd.sender with
         | some x => finish x id3
         | none =>
           match term with
           | some x => finish x id3
-          | none =>
-            if cfg.isSystem receiver then finish ok id3
-            else match st.contains .deny receiver tPerson cmd.from with
-              | .err => finish (rSystemError, .store) id3
-              | .val true => finish (rInBlacklist, .none) id3
-              | .val false =>
-                if !cfg.whitelist then finish ok id3
-                else match st.contains .allow receiver tPerson cmd.from with
-                  | .err => finish (rSystemError, .store) id3
-                  | .val true => finish ok id3
-                  | .val false =>
-                    match st.chan receiver tPerson with
-                    | .err => finish (rSystemError, .store) id3
-                    | .found _ _ _ true => finish ok id3
-                    | _ => finish (rNotInWhitelist, .none) id3
+          | none => finish (evalPersonTail cfg st (receiverOf cmd.sender l r) cmd.sender) id3
 
 /-- `resolveSendBatchPermissions` for one permission scope + SendBatchEach's result handling -/
 def batch (cfg : Cfg) (st : Store) (cmd : Cmd) : Outcome :=
-  if cfg.hasBatch && !cmd.requestScoped && cmd.scoped == 0 then
+  if cfg.hasBatch && !cmd.requestScoped && cmd.scopedN == 0 then
     if cmd.chanType = tGroup then batchGroup cfg st cmd
     else if cmd.chanType = tPerson then batchPerson cfg st cmd
     else perSend cfg st cmd
